@@ -499,6 +499,10 @@ def store(a, k, v):
     return T("store", (a, lift(k), lift(v)), a.sort)
 
 
+def constarr(sort, v):
+    return T("constarr", (lift(v),), sort)
+
+
 # uninterpreted functions and quantifiers ------------------------------------
 def app(fname, sort, *args):
     return T("app", (fname,) + tuple(lift(a) for a in args), sort)
@@ -668,6 +672,8 @@ class Printer(object):
             return "(exists ((%s Int)) %s)" % (_name(v.args[0]), self.p(and_(rng, body)))
         if op == "seq.empty":
             return "(as seq.empty %s)" % t.sort
+        if op == "constarr":
+            return "((as const %s) %s)" % (t.sort, self.p(a[0]))
         if op == "up":
             return "(str.to_upper %s)" % self.p(a[0])
         if op == "low":
